@@ -171,6 +171,42 @@ const c08Extra = `{namespace extra}
 {template .ij}
 {$ij.foo}{if $x}{$x}{/if}<i>{$ij.bar ?: 'none'}</i>{foreach $n in $names}{$n}{/foreach}
 {/template}
+
+/**
+ * Every way a call passes data, with parameters set on top, from inside nested blocks; the
+ * caller's locals and the data map are used again afterwards.
+ * @param rec
+ * @param a
+ * @param b
+ * @param c
+ */
+{template .probe}
+{let $k: 'k0' /}
+{foreach $q in $c}
+{call .sink data="$rec"}{param a: $q /}{param b}p{$k}{/param}{/call}
+{call .sink data="all"}{param a: $q + 1 /}{/call}
+{$k}{$q}{if isLast($q)}.{/if}
+{/foreach}
+{call .sink data="all" /}{call .sink}{param a: 0 /}{param b: $b /}{param c: $c /}{/call}
+{$k}{$a}{$b}{$rec.a}{$rec.b}{length($rec.c)}
+{/template}
+
+/**
+ * @param a
+ * @param b
+ * @param c
+ */
+{template .sink}
+[{$a}|{$b}|{length($c)}]{let $z: 'shadow' /}{$z}{call .leaf data="all"}{param b: 'leaf' /}{/call}{$b}
+{/template}
+
+/**
+ * @param a
+ * @param b
+ */
+{template .leaf}
+<{$a}{$b}>{let $a2}{$a}{/let}{$a2}
+{/template}
 `
 
 const c08Custom = `{namespace custom}
@@ -249,6 +285,9 @@ func runC08(e *env) {
 				st = c.Steps[s-1]
 			default:
 				st.Kind, st.File = "jsgen", e.rng.Intn(len(files))
+			}
+			if s == 1 { // every history exercises the call-data probe at least once
+				st = c08Step{Kind: "render", Template: "extra.probe", Data: st.Data, Ij: st.Ij}
 			}
 			c.Steps = append(c.Steps, st)
 		}
